@@ -15,6 +15,7 @@ def run(ctx, res):
         "hold a partial start / end delimiter, every path on which the current character differs from the expected one is "
         "enumerated; on such a path the outcome must fork on `c == first character of the delimiter` and, when equal, must "
         "not fall back to the plain base state (Text / InDelimiter).  Necessary for `//* <tag> */` and `<<!-- <tag> -->`.  "
+        "R2: an Element token kind is constructed only inside get_state (the end-of-input flush must go through the same transition function).  "
         "Not decided: delimiters with a proper self-overlap ('aab'), shortest-end matching, at-least-one-body-character.")
     res.trusted += ["driver fact extraction and the abstract interpreter"]
     b = P.fn("tokenizer::get_state")
@@ -82,3 +83,5 @@ def run(ctx, res):
             res.holds("C08.R1", fn, site, "re-dispatched: on `c == first(%s)` -> %s" % (delim, A.show(eq_paths[0]["value"])[:120]))
             res.samples.append({"state": st, "decisions": {k: str(v) for k, v in eq_paths[0]["decisions"].items()}, "outcome": A.show(eq_paths[0]["value"])[:200]})
     res.floor("C08.R1", "mismatch arms analysed", arms, 2)
+    from . import c07
+    c07.element_kind_sites(ctx, res, "C08.R2")
